@@ -22,8 +22,8 @@ Local Open Scope N_scope.
    count, inputs + implicit / order-only counts, dyndep binding, sources of the restat flag;
    producers and out-edges are functions of these), hence plain equality.
    Hypothesis: the dyndep file is listed ONCE among the inputs of a bound edge (needed: see the
-   refutation).  No hypothesis about binding scopes any more: the fixed UpdateEdge binds restat in
-   a scope private to the edge. *)
+   refutation).  No hypothesis about binding scopes any more: since the fix the parser gives every
+   edge with a dyndep binding a scope of its own, which is where UpdateEdge binds restat. *)
 Theorem C11_load_is_inline : forall g f stmts g',
   listed_once g f ->
   load_dyndep g f stmts = Ok g' -> g' = inline_dyndep g stmts.
@@ -64,7 +64,7 @@ Proof. exact C11_load_is_inline_refuted_listed_twice. Qed.
 Print Assumptions C11_listed_twice_witness.
 
 (* REFUTATION ABOUT THE OLD CODE ([load_dyndep_old] = the loader with UpdateEdge as it was before
-   "fix: bind dyndep-supplied restat in a scope private to the edge"): "restat = 1" of a dyndep file
+   "fix: give an edge whose dyndep binding comes from its rule a scope of its own"): "restat = 1" of a dyndep file
    for an edge whose dyndep binding comes from its RULE (no indented binding => Edge::env_ was the
    file-level scope) made EVERY edge of the manifest a restat edge.  The defect was found by this
    model, reproduced on the real code and fixed in /repo. *)
